@@ -8,6 +8,7 @@ import (
 	"path/filepath"
 	"strings"
 	"syscall"
+	"time"
 
 	"verif/internal/ev"
 	"verif/internal/gen"
@@ -631,6 +632,7 @@ func checkC15(c *ev.Ctx) {
 	c15Related(c, base)
 	gxzManyArgs(c, base)
 	c15Contents(c, base)
+	c15Fifo(c, base)
 	// round trips for all presets and both formats, with interop
 	type rt struct {
 		f string
@@ -1082,4 +1084,178 @@ func c15Contents(c *ev.Ctx, base string) {
 		c.Count("roundtrips_with_coder_built_content", int64(len(names)))
 		os.RemoveAll(dir)
 	}
+}
+
+// c15Fifo: a FIFO without a writer (and other non-regular files) among the arguments.  gxz must
+// refuse it, process the other files as if they had been alone and exit non-zero.  A run that
+// blocks is decided by state, not by a time limit: the process is observed (via
+// /proc/<pid>/task/*/syscall and /proc/<pid>/mem) inside open(2) of the FIFO's name, a call
+// that cannot return as long as nobody opens the other end; the harness then opens the other
+// end (non-blocking) to let the process go.  If neither an exit nor that state is seen within
+// the step budget the case is inconclusive.
+func c15Fifo(c *ev.Ctx, base string) {
+	type sc struct {
+		pos  int // position of the special argument among three
+		kind string
+		dec  bool
+	}
+	var scs []sc
+	for _, kind := range []string{"fifo", "devnull"} {
+		for pos := 0; pos < 3; pos++ {
+			for _, dec := range []bool{false, true} {
+				scs = append(scs, sc{pos, kind, dec})
+			}
+		}
+	}
+	par(len(scs), func(i int) {
+		s := scs[i]
+		id := fmt.Sprintf("special%d", i)
+		noteCase(id)
+		if !want(c, id) {
+			return
+		}
+		r := prng.New(c.Seed, 159, uint64(i))
+		dir := filepath.Join(base, id)
+		os.MkdirAll(dir, 0o755)
+		defer os.RemoveAll(dir)
+		d1, d2 := gen.Data(r, "text", 3000), gen.Data(r, "lowent", 2000)
+		n1, n2, special := "first.txt", "second.txt", "queue"
+		in1, in2 := d1, d2
+		if s.dec {
+			n1, n2, special = "first.txt.xz", "second.txt.xz", "queue.xz"
+			in1, in2 = compressWith("xz", d1), compressWith("xz", d2)
+		}
+		os.WriteFile(filepath.Join(dir, n1), in1, 0o644)
+		os.WriteFile(filepath.Join(dir, n2), in2, 0o644)
+		sp := filepath.Join(dir, special)
+		if s.kind == "fifo" {
+			if err := syscall.Mkfifo(sp, 0o644); err != nil {
+				c.Inconclusive("mkfifo: " + err.Error())
+				return
+			}
+		} else if err := os.Symlink("/dev/null", sp); err != nil {
+			c.Inconclusive("symlink: " + err.Error())
+			return
+		}
+		args := []string{n1, n2}
+		args = append(args[:s.pos], append([]string{special}, args[s.pos:]...)...)
+		if s.dec {
+			args = append([]string{"-d"}, args...)
+		}
+		cmd := exec.Command(gxzBinary(), args...)
+		cmd.Dir = dir
+		var eb bytes.Buffer
+		cmd.Stderr = &eb
+		cmd.Stdout = nil
+		if err := cmd.Start(); err != nil {
+			c.Inconclusive("start: " + err.Error())
+			return
+		}
+		exited := make(chan struct{})
+		go func() { cmd.Wait(); close(exited) }()
+		blocked, done := false, false
+		for step := 0; step < 3000 && !done; step++ {
+			select {
+			case <-exited:
+				done = true
+				continue
+			default:
+			}
+			if s.kind == "fifo" && blockedInOpenOf(cmd.Process.Pid, special) {
+				blocked = true
+				// let it go: open the other end without blocking
+				if fd, err := syscall.Open(sp, syscall.O_WRONLY|syscall.O_NONBLOCK, 0); err == nil {
+					syscall.Close(fd)
+				}
+			}
+			time.Sleep(20 * time.Millisecond)
+		}
+		if !done {
+			cmd.Process.Kill() // SIGKILL: no handler runs
+			<-exited
+			if !blocked {
+				c.Inconclusive(fmt.Sprintf("%s: gxz %v neither exited nor was seen blocked in open(2) within the step budget", id, args))
+				return
+			}
+		}
+		c.Eval(fmt.Sprintf("special %s pos%d d%v", s.kind, s.pos, s.dec), true)
+		c.Count("special_file_argument_runs", 1)
+		// (the FIFO is looked at and removed before the directory is read: reading it would block)
+		fi, lerr := os.Lstat(sp)
+		specialKept := lerr == nil && (s.kind != "fifo" || fi.Mode()&os.ModeNamedPipe != 0)
+		os.Remove(sp)
+		snap := dirSnapshot(dir)
+		exit := cmd.ProcessState.ExitCode()
+		det := map[string]any{"case_id": id, "argv": args, "exit": exit, "stderr": clipStr(eb.String(), 300), "directory_after": snapNames(snap), "special": s.kind}
+		viol := func(sig, what string) {
+			det["what"] = what
+			c.Violation(sig, det)
+		}
+		if blocked {
+			viol("independent-files", fmt.Sprintf("gxz %v blocks in open(2) of the FIFO %q (no writer): the arguments behind it are not processed and the run does not end", args, special))
+			return
+		}
+		okOne := func(in, out string, plain []byte) bool {
+			_, inThere := snap[in]
+			b, outThere := snap[out]
+			if inThere || !outThere {
+				return false
+			}
+			if s.dec {
+				return bytes.Equal(b, plain)
+			}
+			return decodesTo("xz", b, plain)
+		}
+		o1, o2 := n1+".xz", n2+".xz"
+		if s.dec {
+			o1, o2 = "first.txt", "second.txt"
+		}
+		if !okOne(n1, o1, d1) || !okOne(n2, o2, d2) {
+			viol("independent-files", fmt.Sprintf("a %s among the arguments: the regular files were not both processed (directory %v)", s.kind, snapNames(snap)))
+		}
+		if exit == 0 {
+			viol("exit-status", fmt.Sprintf("exit status 0 although the argument %q (%s) cannot be processed", special, s.kind))
+		}
+		if !specialKept {
+			viol("file-content", fmt.Sprintf("the %s argument was removed or replaced", s.kind))
+		}
+	})
+}
+
+// blockedInOpenOf tells whether a thread of pid sits in open/openat of a path whose last
+// element is name.
+func blockedInOpenOf(pid int, name string) bool {
+	tasks, _ := os.ReadDir(fmt.Sprintf("/proc/%d/task", pid))
+	for _, t := range tasks {
+		b, err := os.ReadFile(fmt.Sprintf("/proc/%d/task/%s/syscall", pid, t.Name()))
+		if err != nil {
+			continue
+		}
+		f := strings.Fields(string(b))
+		if len(f) < 3 {
+			continue
+		}
+		var ptr uint64
+		switch f[0] {
+		case "257": // openat(dirfd, path, ...)
+			fmt.Sscanf(f[2], "0x%x", &ptr)
+		case "2": // open(path, ...)
+			fmt.Sscanf(f[1], "0x%x", &ptr)
+		default:
+			continue
+		}
+		mem, err := os.Open(fmt.Sprintf("/proc/%d/mem", pid))
+		if err != nil {
+			continue
+		}
+		buf := make([]byte, 512)
+		n, _ := mem.ReadAt(buf, int64(ptr))
+		mem.Close()
+		if k := bytes.IndexByte(buf[:n], 0); k >= 0 {
+			if p := string(buf[:k]); p == name || strings.HasSuffix(p, "/"+name) {
+				return true
+			}
+		}
+	}
+	return false
 }
